@@ -621,6 +621,8 @@ def attoRemainder (convUnits : Except Panic (Option Nat)) (f : Option Bytes) : R
   | .ok (some conv) =>
     let fs := f.getD []
     if !Amount.isDecimal fs then .err .remainder else
+    -- the fraction AS WRITTEN is limited to `powConv` digits (guard regenerated as `fracLenCheckedUntrimmed`, C16)
+    if Gen.Amount.fracLenCheckedUntrimmed && Gen.Amount.powConv < fs.length then .err .lossOfPrecision else
     let r := Amount.trimEnd0 fs
     if r.isEmpty then .ok conv else
     match Amount.uintFromStr r with
